@@ -400,6 +400,20 @@ inst("logistic", "c")(lambda n: _unary(n, "LOGISTIC", None, "logistic"))
 inst("tanh", "c")(lambda n: _unary(n, "TANH", None, "tanh"))
 inst("hard_swish")(lambda n: _unary(n, "HARD_SWISH", ("HardSwishOptions", {}), dtypes=("int8", "uint8")))
 inst("quantize")(lambda n: _unary(n, "QUANTIZE", ("QuantizeOptions", {})))
+def _coarse_then(net, op, outq, scale):
+    """requantise to a very coarse scale (|x| up to ~127*scale), then a table-driven activation: the table generator is called far
+    outside the range where the function is numerically comfortable"""
+    x = net.cur
+    t = net.T(x)
+    if t["dtype"] not in ("int8", "uint8"):
+        return False
+    y = net.act(t["shape"], t["dtype"], q=(scale, 0 if t["dtype"] == "int8" else 255))
+    net.op("QUANTIZE", [x], [y], ("QuantizeOptions", {}))
+    return _unary(net, op, None, outq)
+
+
+inst("logistic_coarse")(lambda n: _coarse_then(n, "LOGISTIC", "logistic", 6.0))
+inst("tanh_coarse", "t")(lambda n: _coarse_then(n, "TANH", "tanh", 6.0))
 inst("abs", "t")(lambda n: _unary(n, "ABS", ("AbsOptions", {}), "same"))
 inst("rsqrt", "t")(lambda n: _unary(n, "RSQRT", None, dtypes=("int8",)))
 inst("exp", "t")(lambda n: _unary(n, "EXP", ("ExpOptions", {}), dtypes=("int8",)))
@@ -444,6 +458,29 @@ def _reshape(net):
     y = net.act(new, t["dtype"], q=(net.scale(x), net.zp(x)) if t["quant"] else None, noquant=t["quant"] is None)
     net.op("RESHAPE", [x, shp], [y], ("ReshapeOptions", dict(NewShape=new)))
     return True
+
+
+def _wide_reshape_between(net, cout):
+    """conv1x1 to `cout` channels -> RESHAPE that keeps the depth and changes the width -> RELU: a reshaped tensor with more than 16
+    channels that is produced and consumed on the NPU (brick format is only legal if both sides see the same shape)"""
+    if not _hw4(net):
+        return False
+    n, h, w, c = net.T(net.cur)["shape"]
+    if w % 2 or h * w > 1024:
+        return False
+    if not _conv_like(net, "conv", 1, 1, PAD_SAME, "NONE", cout=cout):
+        return False
+    x = net.cur
+    t = net.T(x)
+    new = [n, h * 2, w // 2, cout]
+    shp = net.const([4], "int32", "data", values=new)
+    y = net.act(new, t["dtype"], q=(net.scale(x), net.zp(x)))
+    net.op("RESHAPE", [x, shp], [y], ("ReshapeOptions", dict(NewShape=new)))
+    return _unary(net, "RELU", None, "same")
+
+
+inst("c24_reshape_w_relu")(lambda n: _wide_reshape_between(n, 24))
+inst("c32_reshape_w_relu", "t")(lambda n: _wide_reshape_between(n, 32))
 
 
 @inst("reshape_requant")
@@ -769,7 +806,7 @@ SIGMA_Q = [
     "conv1x1", "conv3x3", "conv3x3s2", "conv3x3v_relu6", "conv3x3d2", "dw3x3", "dw3x3s2", "fc", "maxpool2x2",
     "avgpool2x2", "avgpool3x3same", "add_res", "add_const", "add_scalar", "add_bcast_h", "sub_const", "mul_const",
     "min_const", "relu", "leaky_relu", "logistic", "tanh", "hard_swish", "reshape", "concat", "split", "strided_slice",
-    "pad_hw", "pad_c", "mean", "resize_nn2", "quantize", "tconv_s2", "softmax", "cpu_d2s", "cpu_custom", "conv_dynw", "cpu_neg", "tap", "branch_cpu", "branch_npu", "conv_dynw_nobias", "cpu_custom_opt", "conv3x3_c1", "slice", "conv_again", "conv_pair_shared", "reshape_requant", "fc_fc_sq", "conv_c3_sq", "cpu_conv_s4", "cpu_conv_s4_pair",
+    "pad_hw", "pad_c", "mean", "resize_nn2", "quantize", "tconv_s2", "softmax", "cpu_d2s", "cpu_custom", "conv_dynw", "cpu_neg", "tap", "branch_cpu", "branch_npu", "conv_dynw_nobias", "cpu_custom_opt", "conv3x3_c1", "slice", "conv_again", "conv_pair_shared", "reshape_requant", "fc_fc_sq", "conv_c3_sq", "cpu_conv_s4", "cpu_conv_s4_pair", "logistic_coarse", "c24_reshape_w_relu",
 ]
 SIGMA_T = SIGMA_Q + [n for n, (_, tags) in INSTANCES.items() if "t" in tags]
 SIGMA_C = [n for n, (_, tags) in INSTANCES.items() if "c" in tags]
